@@ -98,7 +98,7 @@ pub fn run(ctx: &Ctx) -> i32 {
     );
     rep.assume("a label or statement may not be cut in the middle of a line; cuts are at line boundaries only");
     let per_shard = ctx.tier.pick(10, 500);
-    let acc = run_sharded(ctx.jobs, |shard| {
+    let acc = run_sharded(ctx, |shard| {
         let mut acc = Acc::new();
         for k in 0..per_shard {
             let mut rng = Rng::derive(ctx.seed, 15_000 + shard as u64, k as u64);
